@@ -384,4 +384,81 @@ def run (stp : St → Op → St × Out) (st : St) : List Op → St × List Out
     let (st2, os) := run stp st1 rest
     (st2, o :: os)
 
+/-! ### upload ids S3 no longer knows, and requests working on an orphaned session object
+
+S3 forgets a multipart upload id when the upload is completed OR aborted — by the proxy (`doAbort`, `doComplete`) or
+behind its back (bucket lifecycle rule `AbortIncompleteMultipartUpload`, an operator): `lifecycleAbort`.  Every call
+naming such an id is answered `NoSuchUpload`, an ERROR (`s3Complete` = none and `doPart` = 502 when `s3open = false`);
+it is never a success of the call (class of seeded change C32-r3-1: "NoSuchUpload on completion = already completed").
+
+The gap between `lfsGetUploadSession` and `session.mu.Lock()`: a request that looked the session up (`lookup`: it holds
+a pointer to the session object) parks on the session mutex while the lock holder (an abort, a completion) deletes the
+session from the table; when it gets the lock it runs its whole handler on the orphaned object (`onHeld`).  Nothing
+re-checks the table, so only S3's answer for the (now unknown) upload id stands between it and a 200. -/
+
+/-- S3 drops the in-flight multipart upload behind the proxy's back; the proxy's session stays. -/
+def doLifecycleAbort (st : St) : St × Out := ({ st with s3open := false, s3parts := [] }, ⟨0, none, false⟩)
+
+/-- run handler `f` for a request holding session pointer `held`: if the session is still in the table the pointer is
+that object (`f st`); if it was deleted meanwhile the handler works on the orphan and the table stays without it. -/
+def onHeld (held : Option Sess) (st : St) (f : St → St × Out) : St × Out :=
+  match st.sess, held with
+  | none, some s => let r := f { st with sess := some s }; ({ r.1 with sess := none }, r.2)
+  | _, _ => f st
+
+inductive XOp where
+  | op (o : Op)                 -- a whole handler (lookup + lock + body), as in `step`
+  | lifecycleAbort              -- S3-side abort of the in-flight upload
+  | lookup                      -- a request runs `lfsGetUploadSession` and parks on the session mutex
+  | heldComplete (list : List (Nat × Etag)) (s3Fails : Bool) (b : Broker)   -- the parked request is a completion and runs now
+  | heldAbort                   -- the parked request is an abort and runs now
+deriving Repr
+
+structure XSt where
+  st : St
+  held : Option Sess            -- session object the parked request points to (kept equal to the table's while it is there)
+deriving DecidableEq, Repr
+
+def XSt.init (maxBlob : Int) : XSt := ⟨St.init maxBlob, none⟩
+
+def isInit : Op → Bool
+  | .init .. => true
+  | _ => false
+
+def xstep (x : XSt) : XOp → XSt × Out
+  | .op o =>
+    let r := step x.st o
+    -- a new session (init) is a new object under a new id: the parked request's pointer is outside the model, dropped
+    (⟨r.1, if isInit o then none else match r.1.sess with
+                                      | some s' => if x.held.isSome then some s' else none
+                                      | none => x.held⟩, r.2)
+  | .lifecycleAbort => (⟨(doLifecycleAbort x.st).1, x.held⟩, (doLifecycleAbort x.st).2)
+  | .lookup => (⟨x.st, x.st.sess⟩, ⟨0, none, false⟩)
+  | .heldComplete l f b =>
+    let r := onHeld x.held x.st (fun st => doComplete st l f b)
+    (⟨r.1, none⟩, r.2)
+  | .heldAbort =>
+    let r := onHeld x.held x.st doAbort
+    (⟨r.1, none⟩, r.2)
+
+def xrun (x : XSt) : List XOp → XSt
+  | [] => x
+  | o :: rest => xrun (xstep x o).1 rest
+
+/-- the variant of seeded change C32-r3-1: S3's `NoSuchUpload` answer to CompleteMultipartUpload counts as success
+(no object is created, the handler goes on to the envelope and the produce). -/
+def doCompleteNoSuchUploadOk (st : St) (list : List (Nat × Etag)) (s3Fails : Bool) (b : Broker) : St × Out :=
+  match st.sess with
+  | none => (st, ⟨404, none, false⟩)
+  | some s =>
+    if s.total != s.sizeBytes then (st, ⟨400, none, false⟩)
+    else if list.isEmpty then (st, ⟨400, none, false⟩)
+    else if !etagsOk s list then (st, ⟨400, none, false⟩)
+    else if !listExact s list then (st, ⟨400, none, false⟩)
+    else if s3Fails then (st, ⟨502, none, false⟩)
+    else if !st.s3open then
+      (if produceStatus b == 200 then ({ st with sess := none }, ⟨200, some ⟨s.total, s.hashed⟩, true⟩)
+       else (st, ⟨produceStatus b, none, b != .refuse⟩))
+    else doComplete st list s3Fails b
+
 end KafVerif.LfsHttp
